@@ -300,15 +300,23 @@ def _pick_row(rng, d, nonempty=True):
     return rng.choice(rows) if rows else None
 
 
+def bad_state(rng, d):
+    """A name that is not a state: the tuple, or a falsy / small value (0, '', (), frozenset(), False, -1) when the
+    definition does not use it (a rule that tests truthiness instead of membership lets those through)."""
+    used = _names(d["states"])
+    cand = [x for x in (0, "", (), frozenset(), False, -1, 0.0) if x not in used]
+    return rng.choice(cand) if cand and rng.random() < 0.5 else BAD_STATE
+
+
 def c_bad_initial(rng, d):
     c = _copy(d)
-    c["initial_state"] = BAD_STATE
+    c["initial_state"] = bad_state(rng, d)
     return c
 
 
 def c_bad_final(rng, d):
     c = _copy(d)
-    c["final_states"] = set(d["final_states"]) | {BAD_STATE}
+    c["final_states"] = set(d["final_states"]) | {bad_state(rng, d)}
     return c
 
 
@@ -318,7 +326,7 @@ def c_dfa_bad_end(rng, d):
         return None
     c = _copy(d)
     a = rng.choice(list(c["transitions"][q]))
-    c["transitions"][q][a] = BAD_STATE
+    c["transitions"][q][a] = bad_state(rng, d)
     return c
 
 
@@ -327,7 +335,9 @@ def c_dfa_bad_symbol(rng, d):
     if q is None:
         return None
     c = _copy(d)
-    c["transitions"][q] = _shuffled(rng, c["transitions"][q], BAD_SYM, rng.choice(sorted(d["states"], key=enc.sort_key)))
+    # (the empty string is not a symbol of a DFA either: an empty-string move in a DFA row is an unknown symbol)
+    c["transitions"][q] = _shuffled(rng, c["transitions"][q], rng.choice([BAD_SYM, ""]),
+                                    rng.choice(sorted(d["states"], key=enc.sort_key)))
     return c
 
 
@@ -356,7 +366,7 @@ def c_nfa_bad_end(rng, d):
         return None
     q, a = rng.choice(cand)
     c = _copy(d)
-    c["transitions"][q][a] = set(c["transitions"][q][a]) | {BAD_STATE}
+    c["transitions"][q][a] = set(c["transitions"][q][a]) | {bad_state(rng, d)}
     return c
 
 
@@ -655,6 +665,13 @@ def check_defs(ctx, batch, expect_valid=True):
         got = ctor_outcome(kind, d)
         got2 = explicit_validate_outcome(kind, d)
         problems = []
+        if (kind == "ntm" and len(names) > 1 and got[0] == "err" and want[0] == "err" and got[:2] != want
+                and any(len(rs) > 1 for row in d["transitions"].values() if isinstance(row, dict)
+                        for rs in row.values() if isinstance(rs, (set, frozenset)))):
+            # two broken rules inside one NTM result SET: which one is met first is the set's iteration order, which
+            # the model (a list in wire order) does not share; both refuse, and that is all that is compared
+            ctx.tally("ntm:two rules broken in one result set (order of refusal not determined)")
+            want = got[:2]
         if got[:2] != want:
             problems.append(f"constructor: {'accepted' if got[0] == 'ok' else 'raised ' + got[2]}; model validate: "
                             f"{'accepts' if m[0] == 'ok' else 'error kind %d' % m[1]}")
